@@ -558,8 +558,27 @@ Proof.
   - rewrite Z.mod_small by lia. destruct (n <? 2147483648) eqn:L; [reflexivity | apply Z.ltb_ge in L; lia].
 Qed.
 
-Lemma maxfails_wrap_refuted : exists n k, 1 <= n /\ 0 <= k < n /\ (wrap_int32 n <=? k) = true.
-Proof. exists 4294967296, 0. vm_compute. intuition discriminate. Qed.
+(* an accepted max_fails is stored unchanged: the threshold in force is the configured one *)
+Lemma max_fails_stored n m : parse_max_fails n = Some m -> m = n /\ 1 <= m.
+Proof.
+  unfold parse_max_fails, fits_int32. intros H.
+  destruct ((-2147483648 <=? n) && (n <? 2147483648)) eqn:F; [|discriminate].
+  destruct (n <? 1) eqn:L; [discriminate|]. injection H as <-.
+  apply andb_true_iff in F as [F1 F2]. apply Z.leb_le in F1. apply Z.ltb_lt in F2. apply Z.ltb_ge in L.
+  rewrite wrap_int32_id by lia. lia.
+Qed.
+
+Lemma max_fails_accepted_iff n : (exists m, parse_max_fails n = Some m) <-> 1 <= n < 2147483648.
+Proof.
+  unfold parse_max_fails, fits_int32. split.
+  - intros [m H]. destruct ((-2147483648 <=? n) && (n <? 2147483648)) eqn:F; [|discriminate].
+    destruct (n <? 1) eqn:L; [discriminate|].
+    apply andb_true_iff in F as [_ F2]. apply Z.ltb_lt in F2. apply Z.ltb_ge in L. lia.
+  - intros [H1 H2]. exists (wrap_int32 n).
+    assert (F : (-2147483648 <=? n) && (n <? 2147483648) = true)
+      by (apply andb_true_iff; split; [apply Z.leb_le | apply Z.ltb_lt]; lia).
+    rewrite F. assert (L : (n <? 1) = false) by (apply Z.ltb_ge; lia). rewrite L. reflexivity.
+Qed.
 
 (* every step except the passing of time keeps the expiry goroutines on time *)
 Lemma step_prompt c sel s l s' :
